@@ -226,6 +226,9 @@ let ground_truth (case : string) (out : string) (kind : string) (ts : int) (hp :
          Here: only the case line is parsed (population, call of the last change) and the verdict is printed. *)
       let window = 2 * !last_change in
       let final = last_bits Z0 abs in
+      (* the hypothesis of the soundness theorems, checked on this transcript: outside the population (and at the
+         own address) the harness environment let every probe of the window time out; counted only when violated *)
+      if not (explained (zi ts) (List.map zi !popl) (skipn (nat_of_int window) abs)) then count ("truth:window-not-explained:" ^ kind);
       if not (truth_ok (zi ts) (List.map zi !popl) (nat_of_int window) final abs) then begin
         (* the offending addresses, for the message only *)
         let bad = truth_bad (zi ts) (List.map zi !popl) (nat_of_int window) final abs in
